@@ -1,9 +1,1867 @@
-//! C09 — (module under construction)
-use crate::report::{Coverage, Reporter};
-use serde_json::Value;
+//! C09 — STAMQL parsing is total, and printing then parsing is a fixpoint.
+//!
+//! Part 1 (totality): every token sequence up to a length over a fixed alphabet, appended to a menu of context
+//! prefixes (top level, constraint position, operator position, value position, assignment position, sub-query
+//! position, union position) and joined in three ways; plus every prefix at every char boundary, every
+//! single-character deletion / duplication and every single-token substitution / insertion / deletion of a list
+//! of valid seed queries. Every `Query::parse` call runs under `catch`; a panic is a finding.
+//!
+//! Part 2 (fixpoint): every seed query, every query of a small grammar (result type x name x constraint menu,
+//! pairs of constraints, sub-query templates, ADD / DELETE forms) that parses, and a menu of programmatically
+//! built queries and constraints whose `to_string()` returns Ok: `p1 = parse(print(q))` must succeed,
+//! `structure(p1) == structure(q)`, `print(p1) == print(q)` and q and p1 must give the same rows on three small stores.
 
-pub fn run(_rep: &Reporter) -> Coverage {
-    Coverage::default()
+use crate::report::{Coverage, Reporter, Tier};
+use crate::util::{catch, fnv64, msg_class};
+use rayon::prelude::*;
+use serde_json::{json, Value};
+use stam::*;
+use std::collections::{BTreeMap, BTreeSet};
+use std::sync::atomic::{AtomicBool, AtomicU64, Ordering};
+
+// ---------------------------------------------------------------------------------------------------------
+// Part 1: totality
+// ---------------------------------------------------------------------------------------------------------
+
+/// The token alphabet (48 tokens).
+pub const ALPHABET: &[&str] = &[
+    "SELECT", "ADD", "DELETE", "OPTIONAL", "ANNOTATION", "DATA", "KEY", "TEXT", "RESOURCE", "DATASET", "WHERE", "WITH",
+    "ID", "VALUE", "RELATION", "SUBSTORE", "LIMIT", "OFFSET", "AS", "TARGET", "RECURSIVE", "EMBEDS", "OR", "COMPOSITE",
+    ";", "{", "}", "|", "[", "]", "=", ">",
+    "?x", "\"s\"", "\"a\\\"b\"", "s", "-", "-1", "99999999999999999999", "null", "true", "a|b", "@attr", "\u{c9}",
+    "\u{2003}", "\"", "2024-01-01T00:00:00Z", "1.5",
+];
+
+/// Context prefixes: the enumerated token sequence is appended to each of them.
+pub const CONTEXTS: &[(&str, &str)] = &[
+    ("top", ""),
+    ("constraint", "SELECT ANNOTATION WHERE "),
+    ("operator", "SELECT ANNOTATION WHERE DATA s k "),
+    ("value", "SELECT ANNOTATION WHERE DATA s k = "),
+    ("assignment", "ADD ANNOTATION WITH "),
+    ("subquery", "SELECT ANNOTATION ?a WHERE ID x; { "),
+    ("union", "SELECT ANNOTATION WHERE [ "),
+];
+
+const KEYWORDS: &[&str] = &[
+    "SELECT", "ADD", "DELETE", "OPTIONAL", "ANNOTATION", "DATA", "KEY", "TEXT", "RESOURCE", "DATASET", "WHERE", "WITH", "ID",
+    "VALUE", "RELATION", "SUBSTORE", "LIMIT", "OFFSET", "AS", "TARGET", "METADATA", "RECURSIVE", "NOCASE", "REGEX", "REGEXP",
+    "OR", "COMPOSITE", "MULTI", "DIRECTIONAL", "WHOLE", "ALL", "NONE", "EQUALS", "EMBEDS", "EMBEDDED", "OVERLAPS", "PRECEDES",
+    "SUCCEEDS", "SAMEBEGIN", "SAMEEND", "BEFORE", "AFTER",
+];
+
+const WS: &[char] = &[' ', '\n', '\r', '\t'];
+
+#[derive(Clone, Copy, PartialEq, Eq, Debug)]
+enum Joiner {
+    Space,
+    Newline,
+    /// no separator after a punctuation token and none before `;`, otherwise one space
+    Tight,
 }
 
-pub fn replay(_rep: &Reporter, _case: &Value) {}
+fn is_punct_token(t: &str) -> bool {
+    matches!(t, ";" | "{" | "}" | "|" | "[" | "]" | "=" | ">")
+}
+
+/// Class of a whitespace-delimited token (used in signatures only).
+pub fn tok_class(orig: &str) -> &'static str {
+    // the parser ends an argument at `;`: classify what precedes the first one
+    let t = orig.split(';').next().unwrap_or("");
+    if t.is_empty() {
+        return if orig.is_empty() { "empty" } else { "punct" };
+    }
+    if !t.is_ascii() {
+        return "non-ascii";
+    }
+    if KEYWORDS.contains(&t) {
+        return "keyword";
+    }
+    if matches!(t, "null" | "any" | "true" | "false") {
+        return "literal";
+    }
+    let first = t.chars().next().unwrap();
+    if first == '?' {
+        return "var";
+    }
+    if first == '@' {
+        return "attr";
+    }
+    if t.contains('"') {
+        return "quoted";
+    }
+    if t.chars().all(|c| c.is_ascii_digit() || c == '-' || c == '.') && t.chars().any(|c| c.is_ascii_digit()) {
+        return "number";
+    }
+    if first.is_ascii_digit() && t.contains('T') && t.contains(':') {
+        return "datetime";
+    }
+    if t.len() > 1 && t.contains('|') {
+        return "list";
+    }
+    if t.chars().all(|c| c.is_ascii_punctuation()) {
+        return "punct";
+    }
+    if t.chars().all(|c| c.is_ascii_alphanumeric() || c == '_') {
+        return "name";
+    }
+    "other"
+}
+
+/// (start, end) byte spans of the whitespace-delimited tokens
+fn token_spans(s: &str) -> Vec<(usize, usize)> {
+    let mut v = Vec::new();
+    let mut start: Option<usize> = None;
+    for (i, c) in s.char_indices() {
+        if WS.contains(&c) {
+            if let Some(b) = start.take() {
+                v.push((b, i));
+            }
+        } else if start.is_none() {
+            start = Some(i);
+        }
+    }
+    if let Some(b) = start {
+        v.push((b, s.len()));
+    }
+    v
+}
+
+fn parse_outcome(s: &str) -> Result<bool, String> {
+    catch(|| Query::parse(s).is_ok())
+}
+
+fn panic_class(msg: &str) -> String {
+    let mut c = msg_class(msg);
+    // std quotes the character a bad slice index falls into: data, not class
+    if let Some(p) = c.find("inside '") {
+        let rest = &c[p + 8..];
+        if let Some(q) = rest.find('\'') {
+            c = format!("{}inside 'C{}", &c[..p], &rest[q..]);
+        }
+    }
+    c
+}
+
+/// Signature of a parser panic: message class, the first SELECT/ADD/DELETE keyword of the input, and the class of the
+/// offending token = last token of the shortest token-prefix of the input that, as it stands or closed with `;`,
+/// already panics with the same message class.
+fn panic_sig(s: &str, msg: &str) -> (String, String) {
+    let spans = token_spans(s);
+    let class = panic_class(msg);
+    let same = |t: &str| match parse_outcome(t) {
+        Err(m) => panic_class(&m) == class,
+        Ok(_) => false,
+    };
+    let mut idx = spans.len().saturating_sub(1);
+    for (i, &(_, e)) in spans.iter().enumerate() {
+        if same(&s[..e]) || same(&format!("{};", &s[..e])) {
+            idx = i;
+            break;
+        }
+    }
+    let offending = spans.get(idx).map(|&(b, e)| &s[b..e]).unwrap_or("");
+    // first keyword: the first SELECT / ADD / DELETE token of the input (a `{` or `|` glued in front is ignored)
+    let first = spans
+        .iter()
+        .map(|&(b, e)| s[b..e].trim_start_matches(|c| c == '{' || c == '|'))
+        .find(|t| matches!(*t, "SELECT" | "ADD" | "DELETE"))
+        .unwrap_or("none");
+    (format!("total|{}|first={}|tok={}", class, first, tok_class(offending)), offending.to_string())
+}
+
+#[derive(Default)]
+struct Stats {
+    cases: AtomicU64,
+    ok: AtomicU64,
+    err: AtomicU64,
+    panics: AtomicU64,
+    nontrivial: AtomicU64,
+    calls: AtomicU64,
+}
+
+#[derive(Default)]
+struct Local {
+    cases: u64,
+    ok: u64,
+    err: u64,
+    panics: u64,
+    nontrivial: u64,
+    calls: u64,
+}
+
+impl Local {
+    fn flush(&mut self, st: &Stats) {
+        st.cases.fetch_add(self.cases, Ordering::Relaxed);
+        st.ok.fetch_add(self.ok, Ordering::Relaxed);
+        st.err.fetch_add(self.err, Ordering::Relaxed);
+        st.panics.fetch_add(self.panics, Ordering::Relaxed);
+        st.nontrivial.fetch_add(self.nontrivial, Ordering::Relaxed);
+        st.calls.fetch_add(self.calls, Ordering::Relaxed);
+        *self = Local::default();
+    }
+}
+
+fn past_dispatch(s: &str) -> bool {
+    let t = s.trim_start();
+    t.starts_with("SELECT") || t.starts_with("ADD") || t.starts_with("DELETE") || t.starts_with('@')
+}
+
+fn ord_of(s: &str) -> u64 {
+    (s.len() as u64) * 1_000_000 + fnv64(s.as_bytes()) % 1_000_000
+}
+
+/// One totality case. `also_tryfrom` additionally runs the `TryFrom<&str>` entry point.
+fn check_total(rep: &Reporter, s: &str, also_tryfrom: bool, how: &str, l: &mut Local) {
+    l.cases += 1;
+    l.calls += 1;
+    if past_dispatch(s) {
+        l.nontrivial += 1;
+    }
+    let report = |msg: &str, entry: &str| {
+        let (sig, offending) = panic_sig(s, msg);
+        rep.fail(
+            &sig,
+            ord_of(s),
+            || format!("{}({:?}) panicked: {} (offending token {:?}; input from {})", entry, s, msg, offending, how),
+            || json!({"part": "totality", "input": s}),
+        );
+    };
+    match parse_outcome(s) {
+        Ok(true) => l.ok += 1,
+        Ok(false) => l.err += 1,
+        Err(msg) => {
+            l.panics += 1;
+            report(&msg, "Query::parse");
+        }
+    }
+    if also_tryfrom {
+        l.calls += 1;
+        if let Err(msg) = catch(|| Query::try_from(s).is_ok()) {
+            report(&msg, "Query::try_from");
+        }
+    }
+}
+
+fn join_into(buf: &mut String, prev: Option<&str>, tok: &str, joiner: Joiner) {
+    if let Some(p) = prev {
+        match joiner {
+            Joiner::Space => buf.push(' '),
+            Joiner::Newline => buf.push('\n'),
+            Joiner::Tight => {
+                if !(is_punct_token(p) || tok == ";") {
+                    buf.push(' ')
+                }
+            }
+        }
+    }
+    buf.push_str(tok);
+}
+
+/// All sequences of exactly `len` tokens appended to `ctx`. Returns false if the wall-clock deadline cut it short.
+fn enumerate_sequences(rep: &Reporter, ctx: (&str, &str), joiner: Joiner, len: usize, st: &Stats, deadline: f64) -> bool {
+    let a = ALPHABET.len();
+    let how = format!("token sequences, context {:?}, joiner {:?}, length {}", ctx.0, joiner, len);
+    if len == 0 {
+        let mut l = Local::default();
+        check_total(rep, ctx.1, false, &how, &mut l);
+        check_total(rep, ctx.1.trim_end(), false, &how, &mut l);
+        l.flush(st);
+        return true;
+    }
+    let outer = a.pow((len - 1) as u32);
+    let cut = AtomicBool::new(false);
+    (0..outer).into_par_iter().for_each(|idx| {
+        if cut.load(Ordering::Relaxed) {
+            return;
+        }
+        if idx % 4096 == 0 && rep.elapsed() > deadline {
+            cut.store(true, Ordering::Relaxed);
+            return;
+        }
+        let mut l = Local::default();
+        let mut prefix = String::with_capacity(128);
+        prefix.push_str(ctx.1);
+        let mut prev: Option<&str> = None;
+        let mut x = idx;
+        let mut digits = Vec::with_capacity(len);
+        for _ in 0..len - 1 {
+            digits.push(x % a);
+            x /= a;
+        }
+        digits.reverse();
+        for d in digits {
+            join_into(&mut prefix, prev, ALPHABET[d], joiner);
+            prev = Some(ALPHABET[d]);
+        }
+        let plen = prefix.len();
+        for tok in ALPHABET {
+            prefix.truncate(plen);
+            join_into(&mut prefix, prev, tok, joiner);
+            check_total(rep, &prefix, false, &how, &mut l);
+        }
+        l.flush(st);
+    });
+    !cut.load(Ordering::Relaxed)
+}
+
+/// The valid seed queries (the queries of the suite's query_parse* / query* tests plus grammar-derived variants).
+pub fn seeds() -> Vec<&'static str> {
+    vec![
+        "SELECT ANNOTATION ?a WHERE DATA set key = value;",
+        "SELECT ANNOTATION ?a WHERE DATA \"set\" \"key\" = \"value\";",
+        "SELECT ANNOTATION ?a WHERE DATA \"set\" \"key\" = 5;",
+        "SELECT ANNOTATION ?a WHERE DATA \"set\" \"key\";",
+        "SELECT ANNOTATION ?a WHERE DATA \"set\" \"key\" = value|value2|value3;",
+        "SELECT ANNOTATION ?a WHERE DATA \"set\" \"key\" = 3|4|5;",
+        "SELECT ANNOTATION ?a WHERE DATA \"set\" \"key\" = \"value|value2|value3\";",
+        "@a @b SELECT ANNOTATION ?a WHERE @blah @blieh=bloeh DATA \"set\" \"key\" = \"value\";",
+        "SELECT ANNOTATION ?a WHERE TEXT blah;",
+        "SELECT ANNOTATION ?a WHERE DATA \"set\" \"key\" = \"value\"; { SELECT ANNOTATION WHERE RELATION ?a SUCCEEDS; }",
+        "SELECT ANNOTATION ?a WHERE DATA \"set\" \"key\" = \"value\"; { SELECT OPTIONAL ANNOTATION WHERE RELATION ?a SUCCEEDS; }",
+        "SELECT ANNOTATION ?a WHERE DATA \"set\" \"key\" = \"value\"; { SELECT ANNOTATION WHERE RELATION ?a SUCCEEDS; | SELECT ANNOTATION WHERE RELATION ?a PRECEDES; }",
+        "SELECT ANNOTATION ?a WHERE DATA \"set\" \"key\" = \"value\"; { SELECT ANNOTATION ?b WHERE RELATION ?a SUCCEEDS; | SELECT ANNOTATION ?c WHERE RELATION ?a PRECEDES; }",
+        "SELECT ANNOTATION ?a WHERE [ DATA \"set\" \"key\" = \"value\" OR DATA \"set\" \"key\" = \"value\" ];",
+        "SELECT ANNOTATION ?a WHERE [ DATA set key = value OR DATA set key = value ];",
+        "SELECT ANNOTATION ?a WHERE DATA \"set\" \"key\"; [ DATA \"set\" \"key\" = \"value\" OR DATA \"set\" \"key\" = \"value\" ]; RESOURCE \"x\";",
+        "ADD ANNOTATION ?a WITH DATA \"set\" \"key\" \"value\"; TARGET ?x; { SELECT ANNOTATION ?x WHERE ID \"A1\"; }",
+        "DELETE ANNOTATION ?a { SELECT ANNOTATION ?a WHERE ID \"A1\"; }",
+        "SELECT ANNOTATION ?a WHERE DATA myset type = phrase;",
+        "SELECT ANNOTATION ?a WHERE LIMIT 1;",
+        "SELECT ANNOTATION ?a WHERE LIMIT -1;",
+        "SELECT ANNOTATION ?a WHERE LIMIT 0 1;",
+        "SELECT ANNOTATION ?sentence WHERE DATA myset type = sentence; { SELECT ANNOTATION ?phrase WHERE RELATION ?sentence EMBEDS; DATA myset type = phrase; }",
+        "SELECT ANNOTATION ?sentence WHERE DATA myset type = sentence; { SELECT ANNOTATION ?phrase WHERE RELATION ?sentence EMBEDS; DATA myset type = phrase; | SELECT ANNOTATION ?word WHERE RELATION ?sentence EMBEDS; DATA myset type = word;}",
+        "SELECT ANNOTATION ?sentence WHERE DATA myset type = sentence; { SELECT OPTIONAL ANNOTATION ?phrase WHERE RELATION ?sentence EMBEDS; DATA myset type = phrase; | SELECT OPTIONAL ANNOTATION ?word WHERE RELATION ?sentence EMBEDS; DATA myset type = word; | SELECT OPTIONAL ANNOTATION ?nonexistant WHERE RELATION ?sentence EMBEDS; DATA myset type = nonexistant; }",
+        " \n    SELECT ANNOTATION ?det WHERE\n        DATA testdataset pos = det;\n    {\n        SELECT ANNOTATION ?adj WHERE\n            RELATION ?det PRECEDES;\n            DATA testdataset pos = adj;\n        {\n            SELECT ANNOTATION ?n WHERE\n                RELATION ?adj PRECEDES;\n                DATA testdataset pos = n;\n        }\n    }\n    ",
+        " \n    SELECT ANNOTATION ?n WHERE\n        DATA testdataset pos = n;\n    {\n        SELECT OPTIONAL ANNOTATION ?v WHERE\n            RELATION ?n PRECEDES;\n            DATA testdataset pos = v;\n    }\n    ",
+        "SELECT ANNOTATION ?a WHERE [ DATA myset type = phrase OR DATA myset type = sentence ];",
+        "ADD ANNOTATION ?a WITH DATA \"testdataset\" \"type\" \"phrase\"; TARGET ?target; \n            { SELECT TEXT ?target WHERE RESOURCE \"testres\" OFFSET 0 11; }",
+        // grammar-derived variants
+        "SELECT TEXT ?t WHERE RESOURCE \"r\" OFFSET 0 5;",
+        "SELECT TEXT WHERE TEXT \"hello world\";",
+        "SELECT TEXT WHERE TEXT \"\u{c9} a\\\"b\";",
+        "SELECT RESOURCE ?r WHERE DATASET s;",
+        "SELECT DATA ?d WHERE DATA s k > 1.5;",
+        "SELECT KEY ?k WHERE DATASET \"s\";",
+        "SELECT DATASET ?s;",
+        "SELECT ANNOTATION",
+        "SELECT annotation ?a WHERE ID a1;",
+        "SELECT ANNOTATION ?a WHERE ANNOTATION a1 OFFSET 0 -1;",
+        "SELECT ANNOTATION ?a WHERE DATA s k != null;",
+        "SELECT ANNOTATION ?a WHERE DATA s k = true; DATA s k2 = any;",
+        "SELECT ANNOTATION ?a WHERE DATA s k >= 2024-03-01T12:30:45+01:00;",
+        "SELECT ANNOTATION ?a WHERE DATA s k <= -3; DATA s k < 2.5; DATA s k != 7;",
+        "SELECT DATA ?d WHERE VALUE = 5;",
+        "SELECT DATA ?d WHERE VALUE != \"x\";",
+        "SELECT ANNOTATION ?a WHERE SUBSTORE NONE;",
+        "SELECT ANNOTATION ?a WHERE ID \"a1\";\n{ SELECT DATA ?d WHERE ANNOTATION ?a;\n{ SELECT KEY ?k WHERE DATA ?d; } }",
+        "SELECT ANNOTATION ?a WHERE ID \"a1\"; { SELECT ANNOTATION ?b WHERE KEY ?k; SUBSTORE ?s; DATASET ?d; TEXT ?t; }",
+        "SELECT ANNOTATION ?a WHERE [ ID a1 OR [ DATA s k OR TEXT x ] ];",
+        "SELECT TEXT ?t WHERE RESOURCE ?r OFFSET WHOLE;",
+        "SELECT\tANNOTATION\n?a\nWHERE\n\tDATA s k = v;\n",
+        "ADD ANNOTATION ?n WITH ID \"new\"; DATA s k 5; DATA s k2 1.5; DATA s k3 true; TARGET ?x OFFSET 0 2; { SELECT ANNOTATION ?x WHERE ID a1; }",
+        "ADD ANNOTATION WITH COMPOSITE; TARGET ?x; TARGET ?y; { SELECT TEXT ?x WHERE RESOURCE r OFFSET 0 1; { SELECT TEXT ?y WHERE RESOURCE r OFFSET 2 3; } }",
+        "DELETE ANNOTATION { SELECT ANNOTATION WHERE DATA s k = v; }",
+        "@x SELECT ANNOTATION ?a { @y SELECT ANNOTATION ?b WHERE @z ANNOTATION ?a; }",
+        "SELECT ANNOTATION ?a WHERE DATA s k = \"a|b\"; LIMIT -2 -1;",
+    ]
+}
+
+/// Character-level and token-level single edits of the seed queries.
+fn seed_edits(rep: &Reporter, st: &Stats, double_tokens: bool) -> u64 {
+    let seeds = seeds();
+    let n = AtomicU64::new(0);
+    seeds.par_iter().for_each(|seed| {
+        let mut l = Local::default();
+        let bounds: Vec<usize> = seed.char_indices().map(|(i, _)| i).chain(std::iter::once(seed.len())).collect();
+        // prefixes at every char boundary
+        for &b in &bounds {
+            check_total(rep, &seed[..b], true, "prefix of a seed query", &mut l);
+        }
+        // single-character deletion and duplication
+        for w in bounds.windows(2) {
+            let (b, e) = (w[0], w[1]);
+            let del = format!("{}{}", &seed[..b], &seed[e..]);
+            check_total(rep, &del, true, "seed query with one character deleted", &mut l);
+            let dup = format!("{}{}{}", &seed[..e], &seed[b..e], &seed[e..]);
+            check_total(rep, &dup, true, "seed query with one character duplicated", &mut l);
+        }
+        // token-level: deletion, substitution and insertion of one alphabet token
+        let spans = token_spans(seed);
+        for (i, &(b, e)) in spans.iter().enumerate() {
+            let del = format!("{}{}", &seed[..b], &seed[e..]);
+            check_total(rep, &del, true, "seed query with one token deleted", &mut l);
+            for tok in ALPHABET {
+                let sub = format!("{}{}{}", &seed[..b], tok, &seed[e..]);
+                check_total(rep, &sub, true, "seed query with one token substituted", &mut l);
+                // keep a trailing `;` glued to the substituted token, as in the seed
+                if seed[b..e].ends_with(';') && e - b > 1 {
+                    let sub = format!("{}{};{}", &seed[..b], tok, &seed[e..]);
+                    check_total(rep, &sub, true, "seed query with one token substituted (semicolon kept)", &mut l);
+                }
+                let ins = format!("{}{} {}", &seed[..b], tok, &seed[b..]);
+                check_total(rep, &ins, true, "seed query with one token inserted", &mut l);
+                if double_tokens {
+                    if let Some(&(_, e2)) = spans.get(i + 1) {
+                        for tok2 in ALPHABET {
+                            let sub = format!("{}{} {}{}", &seed[..b], tok, tok2, &seed[e2..]);
+                            check_total(rep, &sub, false, "seed query with two adjacent tokens substituted", &mut l);
+                        }
+                    }
+                }
+            }
+        }
+        for tok in ALPHABET {
+            let app = format!("{} {}", seed, tok);
+            check_total(rep, &app, true, "seed query with one token appended", &mut l);
+        }
+        n.fetch_add(l.cases, Ordering::Relaxed);
+        l.flush(st);
+    });
+    n.load(Ordering::Relaxed)
+}
+
+struct TotalityPlan {
+    /// (context index, joiner, max length)
+    runs: Vec<(usize, Joiner, usize)>,
+    double_tokens: bool,
+    deadline_s: f64,
+}
+
+fn totality_plan(tier: Tier) -> TotalityPlan {
+    let mut runs = Vec::new();
+    match tier {
+        Tier::Quick => {
+            for c in 0..CONTEXTS.len() {
+                runs.push((c, Joiner::Space, 4));
+                runs.push((c, Joiner::Newline, 2));
+                runs.push((c, Joiner::Tight, 3));
+            }
+            TotalityPlan { runs, double_tokens: false, deadline_s: 24.0 }
+        }
+        Tier::Thorough => {
+            for c in 0..CONTEXTS.len() {
+                runs.push((c, Joiner::Tight, 4));
+                runs.push((c, Joiner::Newline, 4));
+            }
+            // the longest runs last, so that a wall-clock cap cuts only them
+            for c in 0..CONTEXTS.len() {
+                runs.push((c, Joiner::Space, 5));
+            }
+            TotalityPlan { runs, double_tokens: true, deadline_s: 420.0 }
+        }
+    }
+}
+
+// ---------------------------------------------------------------------------------------------------------
+// Part 2: print/parse fixpoint
+// ---------------------------------------------------------------------------------------------------------
+
+fn build_store(which: usize) -> AnnotationStore {
+    let mut st = AnnotationStore::new(Config::default());
+    let r = catch(|| -> Result<(), StamError> {
+        let ts = |r: &'static str, b: usize, e: usize| SelectorBuilder::textselector(r, Offset::simple(b, e));
+        match which {
+            0 => {
+                st.add_resource(TextResourceBuilder::new().with_id("r").with_text("hello world, hello v"))?;
+                st.annotate(AnnotationBuilder::new().with_id("a1").with_target(ts("r", 0, 5)).with_data("s", "k", "v"))?;
+                st.annotate(AnnotationBuilder::new().with_id("a2").with_target(ts("r", 6, 11)).with_data("s", "k", 5isize))?;
+                st.annotate(
+                    AnnotationBuilder::new()
+                        .with_id("a3")
+                        .with_target(SelectorBuilder::annotationselector("a1", Some(Offset::whole())))
+                        .with_data("s", "k2", true),
+                )?;
+                st.annotate(AnnotationBuilder::new().with_id("a4").with_target(SelectorBuilder::resourceselector("r")).with_data("s", "k", 1.5f64))?;
+                st.annotate(
+                    AnnotationBuilder::new()
+                        .with_id("a5")
+                        .with_target(ts("r", 13, 18))
+                        .with_data("s", "k", "v")
+                        .with_data("s", "k2", DataValue::Null),
+                )?;
+                st.annotate(AnnotationBuilder::new().with_id("a6").with_target(ts("r", 0, 11)).with_data("s", "k", "two words"))?;
+            }
+            1 => {
+                st.add_resource(TextResourceBuilder::new().with_id("r").with_text("abc def"))?;
+                st.add_resource(TextResourceBuilder::new().with_id("r2").with_text("hello"))?;
+                st.annotate(AnnotationBuilder::new().with_id("a1").with_target(ts("r", 0, 3)).with_data("s", "k", 2.0f64))?;
+                st.annotate(AnnotationBuilder::new().with_id("a2").with_target(ts("r2", 0, 5)).with_data("s2", "k", "v"))?;
+                st.annotate(AnnotationBuilder::new().with_id("a3").with_target(SelectorBuilder::datasetselector("s")).with_data("s", "k2", "meta"))?;
+                st.annotate(
+                    AnnotationBuilder::new()
+                        .with_id("a4")
+                        .with_target(SelectorBuilder::multiselector(vec![ts("r", 0, 3), ts("r", 4, 7)]))
+                        .with_data("s", "k", -1isize),
+                )?;
+                st.annotate(
+                    AnnotationBuilder::new()
+                        .with_id("a5")
+                        .with_target(ts("r", 4, 7))
+                        .with_data("s", "k", DataValue::Datetime(chrono::DateTime::parse_from_rfc3339("2024-03-01T12:30:45+01:00").unwrap())),
+                )?;
+                st.annotate(AnnotationBuilder::new().with_id("a6").with_target(ts("r", 1, 2)).with_data("s", "k", "a\"b").with_data("s", "k2", "a|b"))?;
+            }
+            _ => {
+                st.add_resource(TextResourceBuilder::new().with_id("r").with_text("hello"))?;
+                st.annotate(AnnotationBuilder::new().with_id("a1").with_target(ts("r", 0, 5)).with_data("s", "k", false))?;
+                st.annotate(AnnotationBuilder::new().with_id("x").with_target(ts("r", 1, 4)).with_data("s", "k", "5"))?;
+            }
+        }
+        Ok(())
+    });
+    match r {
+        Ok(Ok(())) => st,
+        other => panic!("C09 harness: cannot build meaning store {}: {:?}", which, other.map(|x| x.map_err(|e| e.to_string()))),
+    }
+}
+
+const NSTORES: usize = 3;
+
+fn render_item(item: &QueryResultItem) -> String {
+    match item {
+        QueryResultItem::None => "None".into(),
+        QueryResultItem::TextSelection(t) => format!("T:{}:{}-{}", t.resource().id().unwrap_or("?"), t.begin(), t.end()),
+        QueryResultItem::Annotation(a) => match a.id() {
+            Some(id) => format!("A:{}", id),
+            None => format!("A:#{}", a.handle().as_usize()),
+        },
+        QueryResultItem::TextResource(r) => format!("R:{}", r.id().unwrap_or("?")),
+        QueryResultItem::DataKey(k) => format!("K:{}/{}", k.set().id().unwrap_or("?"), k.as_str()),
+        QueryResultItem::AnnotationData(d) => format!("D:{}/{}={:?}", d.set().id().unwrap_or("?"), d.key().as_str(), d.value()),
+        QueryResultItem::AnnotationDataSet(s) => format!("S:{}", s.id().unwrap_or("?")),
+        QueryResultItem::AnnotationSubStore(_) => "SUBSTORE".into(),
+    }
+}
+
+fn render_rows(iter: QueryIter) -> String {
+    let mut rows = Vec::new();
+    for row in iter {
+        let names: Vec<String> = row.names().map(|n| n.unwrap_or("_").to_string()).collect();
+        let items: Vec<String> = row.iter().map(render_item).collect();
+        rows.push(format!("({} = {})", names.join(","), items.join(",")));
+        if rows.len() > 200 {
+            rows.push("...".into());
+            break;
+        }
+    }
+    format!("{} rows [{}]", rows.len(), rows.join(" "))
+}
+
+fn err_class(e: &StamError) -> String {
+    let m = e.to_string();
+    let m = m.split('\'').next().unwrap_or("").to_string();
+    let m = m.replace("[StamError] ", "").replace("QuerySyntaxError: Malformed query: ", "");
+    msg_class(&m).chars().take(90).collect::<String>().trim().to_string()
+}
+
+/// Outcome of evaluating `q` on each meaning store (rows rendered; for ADD/DELETE also the store afterwards).
+fn outcomes(q: &Query, stores: &[AnnotationStore], calls: &mut u64) -> Vec<String> {
+    let mut out = Vec::new();
+    for (i, store) in stores.iter().enumerate() {
+        *calls += 1;
+        if q.querytype().readonly() {
+            let r = catch(|| match store.query(q.clone()) {
+                Ok(it) => render_rows(it),
+                Err(e) => format!("Err({})", err_class(&e)),
+            });
+            out.push(r.unwrap_or_else(|m| format!("panic({})", panic_class(&m))));
+        } else {
+            let mut store = build_store(i);
+            let r = catch(|| match store.query_mut(q.clone()) {
+                Ok(it) => render_rows(it),
+                Err(e) => format!("Err({})", err_class(&e)),
+            });
+            let rows = r.unwrap_or_else(|m| format!("panic({})", panic_class(&m)));
+            let dump = catch(|| {
+                crate::ser::ser_abstract(&store, true, true)
+                    .into_iter()
+                    .filter(|(sec, _)| sec == "annotation" || sec == "data")
+                    .map(|(_, l)| l)
+                    .collect::<Vec<_>>()
+                    .join("; ")
+            })
+            .unwrap_or_else(|m| format!("dump-panic({})", panic_class(&m)));
+            out.push(format!("{} ; store after: {}", rows, dump));
+        }
+    }
+    out
+}
+
+// ---- structure -------------------------------------------------------------------------------------------
+
+#[derive(Clone, PartialEq, Debug)]
+struct CS {
+    variant: &'static str,
+    fields: Vec<(&'static str, String)>,
+    subs: Vec<CS>,
+}
+
+fn d<T: std::fmt::Debug>(x: T) -> String {
+    format!("{:?}", x)
+}
+
+fn op_variant(dbg: &str) -> String {
+    // "Not(Equals(..))" -> "Not(Equals)"
+    let mut out = String::new();
+    let head: String = dbg.chars().take_while(|c| c.is_ascii_alphabetic()).collect();
+    out.push_str(&head);
+    if head == "Not" {
+        let inner: String = dbg[head.len()..].trim_start_matches('(').chars().take_while(|c| c.is_ascii_alphabetic()).collect();
+        out.push('(');
+        out.push_str(&inner);
+        out.push(')');
+    }
+    out
+}
+
+fn cs(c: &Constraint) -> CS {
+    let mut subs = Vec::new();
+    let (variant, fields): (&'static str, Vec<(&'static str, String)>) = match c {
+        Constraint::Id(id) => ("Id", vec![("id", d(id))]),
+        Constraint::Annotation(id, q, dep, off) => ("Annotation", vec![("id", d(id)), ("qualifier", d(q)), ("depth", d(dep)), ("offset", d(off))]),
+        Constraint::TextResource(id, q, off) => ("TextResource", vec![("id", d(id)), ("qualifier", d(q)), ("offset", d(off))]),
+        Constraint::DataSet(id, q) => ("DataSet", vec![("id", d(id)), ("qualifier", d(q))]),
+        Constraint::DataKey { set, key, qualifier } => ("DataKey", vec![("set", d(set)), ("key", d(key)), ("qualifier", d(qualifier))]),
+        Constraint::SubStore(s) => ("SubStore", vec![("id", d(s))]),
+        Constraint::KeyVariable(v, q) => ("KeyVariable", vec![("var", d(v)), ("qualifier", d(q))]),
+        Constraint::DataVariable(v, q) => ("DataVariable", vec![("var", d(v)), ("qualifier", d(q))]),
+        Constraint::DataSetVariable(v, q) => ("DataSetVariable", vec![("var", d(v)), ("qualifier", d(q))]),
+        Constraint::ResourceVariable(v, q, off) => ("ResourceVariable", vec![("var", d(v)), ("qualifier", d(q)), ("offset", d(off))]),
+        Constraint::TextVariable(v) => ("TextVariable", vec![("var", d(v))]),
+        Constraint::SubStoreVariable(v) => ("SubStoreVariable", vec![("var", d(v))]),
+        Constraint::TextRelation { var, operator } => ("TextRelation", vec![("var", d(var)), ("operator", d(operator))]),
+        // `DATA s k = any` is deliberately printed as `DATA s k` (explicit branch in Constraint::to_string): one normal form
+        Constraint::KeyValue { set, key, operator: DataOperator::Any, qualifier } => ("DataKey", vec![("set", d(set)), ("key", d(key)), ("qualifier", d(qualifier))]),
+        Constraint::KeyValue { set, key, operator, qualifier } => {
+            ("KeyValue", vec![("set", d(set)), ("key", d(key)), ("operator", d(operator)), ("qualifier", d(qualifier))])
+        }
+        Constraint::Value(op, q) => ("Value", vec![("operator", d(op)), ("qualifier", d(q))]),
+        Constraint::KeyValueVariable(v, op, q) => ("KeyValueVariable", vec![("var", d(v)), ("operator", d(op)), ("qualifier", d(q))]),
+        Constraint::Text(t, m) => ("Text", vec![("text", d(t)), ("mode", d(m))]),
+        Constraint::Regex(r) => ("Regex", vec![("regex", d(r.as_str()))]),
+        Constraint::Union(v) => {
+            subs = v.iter().map(cs).collect();
+            ("Union", vec![])
+        }
+        Constraint::AnnotationVariable(v, q, dep, off) => {
+            ("AnnotationVariable", vec![("var", d(v)), ("qualifier", d(q)), ("depth", d(dep)), ("offset", d(off))])
+        }
+        Constraint::Limit { begin, end } => ("Limit", vec![("begin", d(begin)), ("end", d(end))]),
+        Constraint::Annotations(..) => ("Annotations", vec![("debug", d(c))]),
+        Constraint::Data(..) => ("Data", vec![("debug", d(c))]),
+        Constraint::Keys(..) => ("Keys", vec![("debug", d(c))]),
+        Constraint::Resources(..) => ("Resources", vec![("debug", d(c))]),
+        Constraint::TextSelections(..) => ("TextSelections", vec![("debug", d(c))]),
+    };
+    CS { variant, fields, subs }
+}
+
+fn cs_diff(a: &CS, b: &CS) -> Option<String> {
+    if a.variant != b.variant {
+        return Some(format!("constraint:{}->{}", a.variant, b.variant));
+    }
+    for ((name, va), (_, vb)) in a.fields.iter().zip(b.fields.iter()) {
+        if va != vb {
+            if *name == "operator" {
+                let (oa, ob) = (op_variant(va), op_variant(vb));
+                let what = if a.variant == "TextRelation" { "relation-operator" } else { "operator" };
+                return Some(if oa != ob {
+                    format!("{}:{}->{}", what, oa, ob)
+                } else if a.variant == "TextRelation" {
+                    "relation-operator:modifiers".to_string()
+                } else {
+                    format!("operator:{}:value", oa)
+                });
+            }
+            if *name == "qualifier" || *name == "depth" || *name == "mode" {
+                return Some(format!("{}:{}->{}", name, va, vb));
+            }
+            return Some(format!("constraint:{}.{}", a.variant, name));
+        }
+    }
+    if a.subs.len() != b.subs.len() {
+        return Some("constraint:Union.len".into());
+    }
+    for (x, y) in a.subs.iter().zip(b.subs.iter()) {
+        if let Some(dd) = cs_diff(x, y) {
+            return Some(format!("Union/{}", dd.trim_start_matches("Union/")));
+        }
+    }
+    None
+}
+
+#[derive(Clone, PartialEq, Debug)]
+struct QS {
+    qtype: String,
+    rtype: Option<&'static str>,
+    name: Option<String>,
+    qualifier: String,
+    attrs: Vec<String>,
+    cons: Vec<(Vec<String>, CS)>,
+    assigns: Vec<String>,
+    subs: Vec<QS>,
+}
+
+fn structure(q: &Query) -> QS {
+    // `constraints_with_attributes` zips with a vector that `with_constraint` does not fill: read both separately
+    let cattrs: Vec<Vec<String>> = q.constraints_with_attributes().map(|(_, a)| a.iter().map(|s| s.to_string()).collect()).collect();
+    QS {
+        qtype: q.querytype().as_str().to_string(),
+        rtype: q.resulttype_as_str(),
+        name: q.name().map(|s| s.to_string()),
+        qualifier: format!("{:?}", q.qualifier()),
+        attrs: q.attributes().map(|s| s.to_string()).collect(),
+        cons: q.constraints().enumerate().map(|(i, c)| (cattrs.get(i).cloned().unwrap_or_default(), cs(c))).collect(),
+        assigns: q.assignments().map(|a| format!("{:?}", a)).collect(),
+        subs: q.subqueries().map(structure).collect(),
+    }
+}
+
+fn len_cmp(a: usize, b: usize) -> &'static str {
+    if b < a {
+        "fewer"
+    } else {
+        "more"
+    }
+}
+
+/// Class of the first structural difference (original -> reparsed), None if equal.
+fn qs_diff(a: &QS, b: &QS) -> Option<String> {
+    if a.qtype != b.qtype {
+        return Some(format!("querytype:{}->{}", a.qtype, b.qtype));
+    }
+    if a.rtype != b.rtype {
+        return Some("resulttype".into());
+    }
+    if a.name != b.name {
+        return Some("name".into());
+    }
+    if a.qualifier != b.qualifier {
+        return Some(format!("qualifier:{}->{}", a.qualifier, b.qualifier));
+    }
+    if a.attrs != b.attrs {
+        return Some("attributes".into());
+    }
+    if a.cons.len() != b.cons.len() {
+        return Some(format!("constraints-len:{}", len_cmp(a.cons.len(), b.cons.len())));
+    }
+    for ((aa, ca), (ab, cb)) in a.cons.iter().zip(b.cons.iter()) {
+        if let Some(dd) = cs_diff(ca, cb) {
+            return Some(dd);
+        }
+        if aa != ab {
+            return Some("constraint-attributes".into());
+        }
+    }
+    if a.assigns.len() != b.assigns.len() {
+        return Some(format!("assignments-len:{}", len_cmp(a.assigns.len(), b.assigns.len())));
+    }
+    if a.assigns != b.assigns {
+        return Some("assignment".into());
+    }
+    if a.subs.len() != b.subs.len() {
+        return Some(format!("subqueries-len:{}", len_cmp(a.subs.len(), b.subs.len())));
+    }
+    for (x, y) in a.subs.iter().zip(b.subs.iter()) {
+        if let Some(dd) = qs_diff(x, y) {
+            return Some(dd);
+        }
+    }
+    None
+}
+
+// ---- the fixpoint check ------------------------------------------------------------------------------------
+
+struct FixFail {
+    /// symptom kind: reparse-err, reparse-panic, print-panic, structure-differs, print-differs, reprint-err, meaning-differs
+    kind: &'static str,
+    /// middle part of the signature (error class / difference class)
+    mid: String,
+    /// whether the signature needs the feature labels (no difference class available)
+    by_labels: bool,
+    detail: String,
+}
+
+#[derive(Default)]
+struct FixOut {
+    printed: Option<String>,
+    unprintable: bool,
+    fails: Vec<FixFail>,
+    calls: u64,
+}
+
+/// The fixpoint check for one query. `skip_structure`: the constraint cannot be spelled in STAMQL one-to-one
+/// (handle collections are printed as unions), only reparse / print stability / meaning are compared.
+fn fix_check(q: &Query, stores: &[AnnotationStore], skip_structure: bool) -> FixOut {
+    let mut o = FixOut::default();
+    o.calls += 1;
+    let s1 = match catch(|| q.to_string()) {
+        Err(m) => {
+            o.fails.push(FixFail { kind: "print-panic", mid: panic_class(&m), by_labels: true, detail: format!("to_string() panicked: {}", m) });
+            return o;
+        }
+        Ok(Err(_)) => {
+            o.unprintable = true;
+            return o;
+        }
+        Ok(Ok(s)) => s,
+    };
+    o.printed = Some(s1.clone());
+    o.calls += 1;
+    let p1 = match catch(|| Query::try_from(s1.as_str())) {
+        Err(m) => {
+            o.fails.push(FixFail {
+                kind: "reparse-panic",
+                mid: panic_class(&m),
+                by_labels: true,
+                detail: format!("printed as {:?}; parsing that panicked: {}", s1, m),
+            });
+            return o;
+        }
+        Ok(Err(e)) => {
+            o.fails.push(FixFail {
+                kind: "reparse-err",
+                mid: err_class(&e),
+                by_labels: true,
+                detail: format!("printed as {:?}; parsing that fails: {}", s1, e),
+            });
+            return o;
+        }
+        Ok(Ok(p)) => p,
+    };
+    let (sq, sp) = (structure(q), structure(&p1));
+    let diff = if skip_structure { None } else { qs_diff(&sq, &sp) };
+    if let Some(dc) = &diff {
+        o.fails.push(FixFail {
+            kind: "structure-differs",
+            mid: dc.clone(),
+            by_labels: false,
+            detail: format!("printed as {:?}; reparsed structure differs at {}: original {:?} reparsed {:?}", s1, dc, sq, sp),
+        });
+    }
+    o.calls += 1;
+    let mut notes: Vec<String> = Vec::new();
+    match catch(|| p1.to_string()) {
+        Err(m) => o.fails.push(FixFail { kind: "print-panic", mid: panic_class(&m), by_labels: true, detail: format!("second to_string() panicked: {}", m) }),
+        Ok(Err(e)) => {
+            if diff.is_none() {
+                o.fails.push(FixFail {
+                    kind: "reprint-err",
+                    mid: "structure-equal".into(),
+                    by_labels: true,
+                    detail: format!("printed as {:?}; the reparsed query cannot be printed: {}", s1, e),
+                });
+            } else {
+                notes.push(format!("the reparsed query cannot be printed ({})", e));
+            }
+        }
+        Ok(Ok(s2)) => {
+            if s2 != s1 {
+                if diff.is_none() {
+                    o.fails.push(FixFail {
+                        kind: "print-differs",
+                        mid: "structure-equal".into(),
+                        by_labels: true,
+                        detail: format!("first print {:?}, print of the reparsed query {:?}", s1, s2),
+                    });
+                } else {
+                    notes.push(format!("second print differs: {:?}", s2));
+                }
+            }
+        }
+    }
+    let oq = outcomes(q, stores, &mut o.calls);
+    let op = outcomes(&p1, stores, &mut o.calls);
+    for i in 0..oq.len() {
+        if oq[i] != op[i] {
+            if diff.is_none() {
+                o.fails.push(FixFail {
+                    kind: "meaning-differs",
+                    mid: "structure-equal".into(),
+                    by_labels: true,
+                    detail: format!("printed as {:?}; on store {} the original gives {} but the reparsed query gives {}", s1, i, oq[i], op[i]),
+                });
+            } else {
+                notes.push(format!("meaning differs too: on store {} the original gives {} but the reparsed query gives {}", i, oq[i], op[i]));
+            }
+            break;
+        }
+    }
+    if !notes.is_empty() {
+        if let Some(f) = o.fails.iter_mut().find(|f| f.kind == "structure-differs") {
+            f.detail = format!("{}; {}", f.detail, notes.join("; "));
+        }
+    }
+    o
+}
+
+// ---- generators ----------------------------------------------------------------------------------------------
+
+#[derive(Clone)]
+struct TextCase {
+    labels: Vec<String>,
+    text: String,
+}
+
+fn tc(labels: &[&str], text: impl Into<String>) -> TextCase {
+    TextCase { labels: labels.iter().map(|s| s.to_string()).collect(), text: text.into() }
+}
+
+const RTYPES: &[&str] = &["ANNOTATION", "DATA", "KEY", "TEXT", "RESOURCE", "DATASET"];
+
+/// (label, constraint text including the closing `;`)
+fn constraint_menu() -> Vec<(String, String)> {
+    let mut v: Vec<(String, String)> = Vec::new();
+    let mut add = |l: &str, t: &str| v.push((l.to_string(), t.to_string()));
+    add("ID-bare", "ID a1;");
+    add("ID-quoted", "ID \"a1\";");
+    add("ID-quoted-space", "ID \"a 1\";");
+    add("ID-escaped-quote", "ID \"a\\\"1\";");
+    add("DATA-key", "DATA s k;");
+    add("DATA-key-quoted", "DATA \"s\" \"k2\";");
+    add("DATA-var", "DATA ?d;");
+    add("KEY-var", "KEY ?k;");
+    add("DATA-as-metadata", "DATA AS METADATA s k;");
+    add("DATA-as-metadata-var", "DATA AS METADATA ?d;");
+    add("KEY-as-metadata-var", "KEY AS METADATA ?k;");
+    add("TEXT-bare", "TEXT hello;");
+    add("TEXT-quoted", "TEXT \"hello world\";");
+    add("TEXT-escaped-quote", "TEXT \"a\\\"b\";");
+    add("TEXT-nocase", "TEXT AS NOCASE \"Hello\";");
+    add("TEXT-regex", "TEXT AS REGEX \"h.*o\";");
+    add("TEXT-var", "TEXT ?x;");
+    add("RESOURCE-id", "RESOURCE r;");
+    add("RESOURCE-quoted", "RESOURCE \"r\";");
+    add("RESOURCE-offset2", "RESOURCE r OFFSET 0 5;");
+    add("RESOURCE-offset1", "RESOURCE r OFFSET 6;");
+    add("RESOURCE-offset-neg", "RESOURCE r OFFSET -3 -1;");
+    add("RESOURCE-offset-whole", "RESOURCE r OFFSET WHOLE;");
+    add("RESOURCE-var", "RESOURCE ?x;");
+    add("RESOURCE-var-offset", "RESOURCE ?x OFFSET 0 2;");
+    add("RESOURCE-as-metadata", "RESOURCE AS METADATA r;");
+    add("RESOURCE-as-target-var", "RESOURCE AS TARGET ?x;");
+    add("DATASET-id", "DATASET s;");
+    add("DATASET-quoted", "DATASET \"s\";");
+    add("DATASET-var", "DATASET ?x;");
+    add("DATASET-as-metadata", "DATASET AS METADATA s;");
+    add("ANNOTATION-id", "ANNOTATION a1;");
+    add("ANNOTATION-quoted", "ANNOTATION \"a1\";");
+    add("ANNOTATION-var", "ANNOTATION ?x;");
+    add("ANNOTATION-offset", "ANNOTATION a1 OFFSET 0 2;");
+    add("ANNOTATION-as-metadata", "ANNOTATION AS METADATA a1;");
+    add("ANNOTATION-as-target-recursive", "ANNOTATION AS TARGET RECURSIVE a1;");
+    add("ANNOTATION-as-metadata-var", "ANNOTATION AS METADATA ?x;");
+    for op in ["EQUALS", "EMBEDS", "EMBEDDED", "OVERLAPS", "PRECEDES", "SUCCEEDS", "SAMEBEGIN", "SAMEEND", "BEFORE", "AFTER"] {
+        add(&format!("RELATION-{}", op), &format!("RELATION ?x {};", op));
+    }
+    add("SUBSTORE-id", "SUBSTORE x;");
+    add("SUBSTORE-none", "SUBSTORE NONE;");
+    add("SUBSTORE-var", "SUBSTORE ?x;");
+    for (l, t) in [("1", "1"), ("neg", "-1"), ("two", "0 1"), ("two-neg", "-2 -1"), ("zero", "0"), ("open-end", "2 0")] {
+        add(&format!("LIMIT-{}", l), &format!("LIMIT {};", t));
+    }
+    add("UNION-2", "[ ID a1 OR ID a2 ];");
+    add("UNION-3", "[ DATA s k = v OR DATA s k = 5 OR TEXT hello ];");
+    add("UNION-1", "[ ID a1 ];");
+    add("UNION-nested", "[ ID a1 OR [ DATA s k OR TEXT hello ] ];");
+    add("UNION-semicolons", "[ ID a1; OR ID a2; ];");
+    let vals: &[(&str, &str)] = &[
+        ("str", "v"),
+        ("qstr", "\"v\""),
+        ("qstr-space", "\"two words\""),
+        ("int", "5"),
+        ("negint", "-1"),
+        ("zero", "0"),
+        ("negzero", "-0"),
+        ("float", "1.5"),
+        ("float-integral", "2.0"),
+        ("negfloat", "-0.5"),
+        ("float-long", "123456789012345678901234.5"),
+        ("true", "true"),
+        ("false", "false"),
+        ("null", "null"),
+        ("any", "any"),
+        ("list", "v|w"),
+        ("intlist", "3|5"),
+        ("mixedlist", "1.5|x"),
+        ("qlist", "\"v|w\""),
+        ("datetime", "2024-03-01T12:30:45+01:00"),
+        ("datetime-z", "2024-03-01T11:30:45Z"),
+        ("qdigits", "\"5\""),
+        ("qnull", "\"null\""),
+        ("qtrue", "\"true\""),
+        ("qescquote", "\"a\\\"b\""),
+        ("qescpipe", "\"a\\|b\""),
+        ("qempty", "\"\""),
+    ];
+    for op in ["=", "!=", ">", ">=", "<", "<="] {
+        for (vl, vt) in vals {
+            add(&format!("DATA{}{}", op, vl), &format!("DATA s k {} {};", op, vt));
+            add(&format!("VALUE{}{}", op, vl), &format!("VALUE {} {};", op, vt));
+        }
+    }
+    v
+}
+
+/// A reduced constraint menu for the combination templates.
+fn reduced_menu() -> Vec<(String, String)> {
+    let keep = [
+        "ID-quoted", "DATA-key", "DATA-var", "KEY-var", "TEXT-quoted", "TEXT-var", "RESOURCE-offset2", "RESOURCE-var", "DATASET-id",
+        "DATASET-var", "ANNOTATION-id", "ANNOTATION-var", "RELATION-EMBEDS", "RELATION-PRECEDES", "SUBSTORE-none", "LIMIT-two",
+        "LIMIT-neg", "UNION-2", "DATA=str", "DATA=int", "DATA=float", "DATA!=null", "DATA=list", "DATA>int", "DATA=true",
+        "VALUE=qstr", "VALUE>=float",
+    ];
+    constraint_menu().into_iter().filter(|(l, _)| keep.contains(&l.as_str())).collect()
+}
+
+fn grammar_cases() -> Vec<TextCase> {
+    let mut v = Vec::new();
+    let menu = constraint_menu();
+    let red = reduced_menu();
+    // base forms
+    for rt in RTYPES {
+        v.push(tc(&["base"], format!("SELECT {}", rt)));
+        v.push(tc(&["base"], format!("SELECT {} ?a", rt)));
+        v.push(tc(&["rt-lowercase"], format!("SELECT {} ?a", rt.to_lowercase())));
+    }
+    v.push(tc(&["where-empty"], "SELECT ANNOTATION ?a WHERE"));
+    // single constraints under every result type, with and without a name
+    for rt in RTYPES {
+        for (l, c) in &menu {
+            v.push(tc(&[l], format!("SELECT {} ?a WHERE {}", rt, c)));
+            v.push(tc(&[l], format!("SELECT {} WHERE {}", rt, c)));
+        }
+    }
+    // a constraint without the closing semicolon, whitespace variants
+    for (l, c) in &red {
+        v.push(tc(&[l, "no-final-semicolon"], format!("SELECT ANNOTATION ?a WHERE {}", c.trim_end_matches(';'))));
+        v.push(tc(&[l, "ws-newlines"], format!("SELECT\nANNOTATION\t?a\r\nWHERE\n\t{}\n", c)));
+    }
+    // ordered pairs of constraints
+    for (l1, c1) in &red {
+        for (l2, c2) in &red {
+            v.push(tc(&[l1, l2], format!("SELECT ANNOTATION ?a WHERE {} {}", c1, c2)));
+        }
+    }
+    // attributes
+    v.push(tc(&["attr-query"], "@x SELECT ANNOTATION ?a WHERE ID a1;"));
+    v.push(tc(&["attr-query"], "@x @y=z SELECT TEXT"));
+    v.push(tc(&["attr-constraint"], "SELECT ANNOTATION ?a WHERE @x ID a1; @y @z DATA s k;"));
+    v.push(tc(&["attr-subquery"], "SELECT ANNOTATION ?a WHERE ID a1; { @x SELECT ANNOTATION ?b WHERE ANNOTATION ?a; }"));
+    v.push(tc(&["attr-in-union"], "SELECT ANNOTATION ?a WHERE [ @x ID a1 OR @y ID a2 ];"));
+    // sub-query templates
+    v.push(tc(&["base:subq"], "SELECT ANNOTATION ?x WHERE ID a1; { SELECT ANNOTATION ?y WHERE ID a3; }"));
+    v.push(tc(&["base:subq"], "SELECT ANNOTATION ?x { SELECT DATA ?y }"));
+    v.push(tc(&["base:subq", "subq-no-outer-where"], "SELECT TEXT ?x { SELECT ANNOTATION ?y WHERE TEXT ?x; }"));
+    for rt in RTYPES {
+        for (l, c) in &red {
+            v.push(tc(&["base:subq", l], format!("SELECT ANNOTATION ?x WHERE DATA s k; {{ SELECT {} ?y WHERE {} }}", rt, c)));
+            v.push(tc(&["base:subq", l], format!("SELECT TEXT ?x WHERE RESOURCE r OFFSET 0 11; {{ SELECT {} ?y WHERE {} }}", rt, c)));
+        }
+    }
+    for (l, c) in &red {
+        v.push(tc(&["base:subq", "subq-optional", l], format!("SELECT ANNOTATION ?x WHERE DATA s k; {{ SELECT OPTIONAL ANNOTATION ?y WHERE {} }}", c)));
+        v.push(tc(
+            &["base:subq", "subq-siblings", l],
+            format!("SELECT ANNOTATION ?x WHERE DATA s k; {{ SELECT ANNOTATION ?y WHERE {} | SELECT TEXT ?z WHERE {} }}", c, c),
+        ));
+        v.push(tc(
+            &["base:subq", "subq-nested", l],
+            format!("SELECT ANNOTATION ?x WHERE DATA s k; {{ SELECT TEXT ?y WHERE ANNOTATION ?x; {{ SELECT ANNOTATION ?z WHERE {} }} }}", c),
+        ));
+    }
+    v.push(tc(&["base:subq", "subq-optional"], "SELECT ANNOTATION ?x WHERE ID a1; { SELECT OPTIONAL ANNOTATION ?y WHERE ANNOTATION ?x; }"));
+    v.push(tc(&["base:subq", "subq-optional"], "SELECT ANNOTATION ?x { SELECT OPTIONAL ANNOTATION ?y WHERE ID nope; }"));
+    v.push(tc(&["base:subq", "subq-siblings"], "SELECT ANNOTATION ?x WHERE ID a1; { SELECT ANNOTATION ?y WHERE ANNOTATION ?x; | SELECT TEXT ?z WHERE ANNOTATION ?x; }"));
+    v.push(tc(
+        &["base:subq", "subq-siblings"],
+        "SELECT ANNOTATION ?x WHERE ID a1; { SELECT ANNOTATION ?y WHERE ANNOTATION ?x; | SELECT TEXT ?z WHERE ANNOTATION ?x; | SELECT DATA ?w WHERE ANNOTATION ?x; }",
+    ));
+    v.push(tc(&["base:subq", "subq-nested"], "SELECT ANNOTATION ?x WHERE ID a1; { SELECT TEXT ?y WHERE ANNOTATION ?x; { SELECT ANNOTATION ?z WHERE TEXT ?y; } }"));
+    v.push(tc(&["top-optional"], "SELECT OPTIONAL ANNOTATION ?x WHERE ID a1;"));
+    // ADD
+    let sub = "{ SELECT ANNOTATION ?x WHERE ID a1; }";
+    let tsub = "{ SELECT TEXT ?x WHERE RESOURCE r OFFSET 0 5; }";
+    v.push(tc(&["add-no-with"], format!("ADD ANNOTATION ?n {}", sub)));
+    v.push(tc(&["add-target"], format!("ADD ANNOTATION ?n WITH TARGET ?x; {}", sub)));
+    v.push(tc(&["add-target"], format!("ADD ANNOTATION WITH TARGET ?x; {}", tsub)));
+    v.push(tc(&["add-target", "add-target-offset"], format!("ADD ANNOTATION ?n WITH TARGET ?x OFFSET 0 2; {}", tsub)));
+    v.push(tc(&["add-target", "add-id"], format!("ADD ANNOTATION ?n WITH ID \"new\"; TARGET ?x; {}", sub)));
+    for (l, val) in [
+        ("str", "w"), ("qstr", "\"two words\""), ("int", "5"), ("negint", "-1"), ("float", "1.5"), ("true", "true"), ("false", "false"),
+        ("none", ""), ("qdigits", "\"5\""), ("qescquote", "\"a\\\"b\""),
+    ] {
+        v.push(tc(&["add-target", &format!("add-data-{}", l)], format!("ADD ANNOTATION ?n WITH DATA s k3 {}; TARGET ?x; {}", val, sub)));
+    }
+    for kind in ["COMPOSITE", "MULTI", "DIRECTIONAL"] {
+        v.push(tc(
+            &["add-target", "add-complex"],
+            format!("ADD ANNOTATION ?n WITH {}; TARGET ?x; TARGET ?y; {{ SELECT TEXT ?x WHERE RESOURCE r OFFSET 0 1; {{ SELECT TEXT ?y WHERE RESOURCE r OFFSET 2 3; }} }}", kind),
+        ));
+    }
+    // DELETE
+    v.push(tc(&["delete"], format!("DELETE ANNOTATION ?x {}", sub)));
+    v.push(tc(&["delete"], "DELETE ANNOTATION { SELECT ANNOTATION WHERE DATA s k = v; }"));
+    v.push(tc(&["delete", "subq-nested"], "DELETE ANNOTATION ?y { SELECT ANNOTATION ?x WHERE ID a1; { SELECT ANNOTATION ?y WHERE ANNOTATION ?x; } }"));
+    v.push(tc(&["delete-no-subquery"], "DELETE ANNOTATION ?x"));
+    v
+}
+// ---- programmatic queries and constraints -----------------------------------------------------------------------
+
+fn dt(s: &str) -> chrono::DateTime<chrono::FixedOffset> {
+    chrono::DateTime::parse_from_rfc3339(s).unwrap()
+}
+
+/// (label, operator): every operator for which a STAMQL spelling could exist
+fn prog_operators() -> Vec<(String, DataOperator<'static>)> {
+    let mut v: Vec<(String, DataOperator<'static>)> = Vec::new();
+    let mut add = |l: &str, o: DataOperator<'static>| v.push((l.to_string(), o));
+    add("Null", DataOperator::Null);
+    add("Any", DataOperator::Any);
+    add("True", DataOperator::True);
+    add("False", DataOperator::False);
+    add("Equals-str", DataOperator::Equals("v".into()));
+    add("Equals-str-space", DataOperator::Equals("two words".into()));
+    add("Equals-str-with-quote", DataOperator::Equals("a\"b".into()));
+    add("Equals-str-with-pipe", DataOperator::Equals("a|b".into()));
+    add("Equals-str-with-backslash", DataOperator::Equals("a\\b".into()));
+    add("Equals-str-digits", DataOperator::Equals("5".into()));
+    add("Equals-str-null", DataOperator::Equals("null".into()));
+    add("Equals-str-true", DataOperator::Equals("true".into()));
+    add("Equals-str-any", DataOperator::Equals("any".into()));
+    add("Equals-str-datetime", DataOperator::Equals("2024-03-01T12:30:45+01:00".into()));
+    add("Equals-str-empty", DataOperator::Equals("".into()));
+    add("EqualsInt", DataOperator::EqualsInt(5));
+    add("EqualsInt-neg", DataOperator::EqualsInt(-1));
+    add("EqualsInt-min", DataOperator::EqualsInt(isize::MIN));
+    add("EqualsFloat", DataOperator::EqualsFloat(1.5));
+    add("EqualsFloat-integral", DataOperator::EqualsFloat(2.0));
+    add("EqualsFloat-neg", DataOperator::EqualsFloat(-0.5));
+    add("EqualsFloat-nonfinite", DataOperator::EqualsFloat(f64::INFINITY));
+    add("GreaterThan", DataOperator::GreaterThan(5));
+    add("GreaterThanOrEqual", DataOperator::GreaterThanOrEqual(5));
+    add("LessThan", DataOperator::LessThan(-1));
+    add("LessThanOrEqual", DataOperator::LessThanOrEqual(5));
+    add("GreaterThanFloat", DataOperator::GreaterThanFloat(1.5));
+    add("GreaterThanFloat-integral", DataOperator::GreaterThanFloat(2.0));
+    add("GreaterThanOrEqualFloat", DataOperator::GreaterThanOrEqualFloat(1.5));
+    add("LessThanFloat", DataOperator::LessThanFloat(1.5));
+    add("LessThanOrEqualFloat", DataOperator::LessThanOrEqualFloat(1.5));
+    let t = "2024-03-01T12:30:45+01:00";
+    add("ExactDatetime", DataOperator::ExactDatetime(dt(t)));
+    add("ExactDatetime-utc", DataOperator::ExactDatetime(dt("2024-03-01T11:30:45Z")));
+    add("AfterDatetime", DataOperator::AfterDatetime(dt(t)));
+    add("BeforeDatetime", DataOperator::BeforeDatetime(dt(t)));
+    add("AtOrAfterDatetime", DataOperator::AtOrAfterDatetime(dt(t)));
+    add("AtOrBeforeDatetime", DataOperator::AtOrBeforeDatetime(dt(t)));
+    add("Not-Equals-str", DataOperator::Not(Box::new(DataOperator::Equals("v".into()))));
+    add("Not-EqualsInt", DataOperator::Not(Box::new(DataOperator::EqualsInt(5))));
+    add("Not-EqualsFloat", DataOperator::Not(Box::new(DataOperator::EqualsFloat(1.5))));
+    add("Not-Null", DataOperator::Not(Box::new(DataOperator::Null)));
+    add("Not-Any", DataOperator::Not(Box::new(DataOperator::Any)));
+    add("Not-True", DataOperator::Not(Box::new(DataOperator::True)));
+    add("Not-False", DataOperator::Not(Box::new(DataOperator::False)));
+    // no syntax exists (to_string returns Err): counted as unprintable, never a finding
+    add("Not-GreaterThan", DataOperator::Not(Box::new(DataOperator::GreaterThan(5))));
+    add("Or", DataOperator::Or(vec![DataOperator::Equals("v".into()), DataOperator::EqualsInt(5)]));
+    add("And", DataOperator::And(vec![DataOperator::GreaterThan(1), DataOperator::LessThan(9)]));
+    add("HasElement", DataOperator::HasElement("v".into()));
+    v
+}
+
+/// Programmatic constraints: (labels, constraint). The first label `base:<Variant>` names the variant in its default
+/// form; every further label is one non-default atom (qualifier, depth, offset form, operator, awkward string).
+fn prog_constraints() -> Vec<(Vec<String>, Constraint<'static>)> {
+    use AnnotationDepth as AD;
+    use SelectionQualifier as SQ;
+    let mut v: Vec<(Vec<String>, Constraint<'static>)> = Vec::new();
+    let mut add = |variant: &str, atoms: &[&str], c: Constraint<'static>| {
+        let mut l = vec![format!("base:{}", variant)];
+        l.extend(atoms.iter().filter(|a| !a.is_empty()).map(|a| a.to_string()));
+        v.push((l, c));
+    };
+    let quals = [(SQ::Normal, ""), (SQ::Metadata, "qualifier-metadata")];
+    let depths = [(AD::One, ""), (AD::Zero, "depth-zero"), (AD::Max, "depth-max")];
+    let offs: Vec<(Option<Offset>, &str)> = vec![
+        (None, ""),
+        (Some(Offset::simple(0, 2)), "offset-simple"),
+        (Some(Offset::new(Cursor::BeginAligned(1), Cursor::EndAligned(0))), "offset-to-end"),
+        (Some(Offset::new(Cursor::EndAligned(-3), Cursor::EndAligned(-1))), "offset-endaligned"),
+    ];
+    for (id, il) in [("a1", ""), ("a 1", "str-with-space"), ("a\"1", "str-with-quote"), ("", "str-empty"), ("?x", "str-looks-like-var")] {
+        add("Id", &[il], Constraint::Id(id));
+    }
+    for (q, ql) in quals {
+        for (dep, dl) in depths {
+            for (off, ol) in &offs {
+                add("Annotation", &[ql, dl, ol], Constraint::Annotation("a1", q, dep, off.clone()));
+                add("AnnotationVariable", &[ql, dl, ol], Constraint::AnnotationVariable("x", q, dep, off.clone()));
+            }
+        }
+        for (off, ol) in &offs {
+            add("TextResource", &[ql, ol], Constraint::TextResource("r", q, off.clone()));
+            add("ResourceVariable", &[ql, ol], Constraint::ResourceVariable("x", q, off.clone()));
+        }
+        add("DataSet", &[ql], Constraint::DataSet("s", q));
+        add("DataSetVariable", &[ql], Constraint::DataSetVariable("x", q));
+        add("DataKey", &[ql], Constraint::DataKey { set: "s", key: "k", qualifier: q });
+        add("KeyVariable", &[ql], Constraint::KeyVariable("k", q));
+        add("DataVariable", &[ql], Constraint::DataVariable("d", q));
+        for (ol, op) in prog_operators() {
+            let atom = if ol == "Equals-str" { String::new() } else { format!("op:{}", ol) };
+            if q == SQ::Normal || matches!(ol.as_str(), "Equals-str" | "EqualsInt" | "Any") {
+                add("KeyValue", &[ql, &atom], Constraint::KeyValue { set: "s", key: "k", operator: op.clone(), qualifier: q });
+                add("Value", &[ql, &atom], Constraint::Value(op.clone(), q));
+            }
+            if matches!(ol.as_str(), "Equals-str" | "EqualsInt" | "Any" | "GreaterThanFloat") {
+                add("KeyValueVariable", &[ql, &atom], Constraint::KeyValueVariable("k", op.clone(), q));
+            }
+        }
+    }
+    add("Annotation", &["str-looks-like-var"], Constraint::Annotation("?x", SQ::Normal, AD::One, None));
+    add("TextResource", &["str-looks-like-var"], Constraint::TextResource("?x", SQ::Normal, None));
+    add("TextResource", &["str-with-quote"], Constraint::TextResource("a\"1", SQ::Normal, None));
+    add("DataSet", &["str-looks-like-var"], Constraint::DataSet("?x", SQ::Normal));
+    add("DataKey", &["str-looks-like-var"], Constraint::DataKey { set: "?x", key: "k", qualifier: SQ::Normal });
+    add("DataKey", &["str-with-quote"], Constraint::DataKey { set: "s", key: "a\"b", qualifier: SQ::Normal });
+    add("SubStore", &[], Constraint::SubStore(Some("x")));
+    add("SubStore", &["substore-none"], Constraint::SubStore(None));
+    add("SubStore", &["str-NONE"], Constraint::SubStore(Some("NONE")));
+    add("SubStore", &["str-looks-like-var"], Constraint::SubStore(Some("?x")));
+    add("SubStoreVariable", &[], Constraint::SubStoreVariable("x"));
+    add("TextVariable", &[], Constraint::TextVariable("x"));
+    type TSO = TextSelectionOperator;
+    let rels: Vec<(&str, TSO)> = vec![
+        ("", TSO::embeds()),
+        ("rel-equals", TSO::equals()),
+        ("rel-overlaps", TSO::overlaps()),
+        ("rel-embedded", TSO::embedded()),
+        ("rel-before", TSO::before()),
+        ("rel-after", TSO::after()),
+        ("rel-precedes", TSO::precedes()),
+        ("rel-succeeds", TSO::succeeds()),
+        ("rel-samebegin", TSO::samebegin()),
+        ("rel-sameend", TSO::sameend()),
+        ("rel-samerange", TSO::SameRange { all: false, negate: false }),
+        ("rel-inset", TSO::InSet { all: false, negate: false }),
+        ("rel-negated", TSO::Embeds { all: false, negate: true }),
+        ("rel-all", TSO::Embeds { all: true, negate: false }),
+        ("rel-limit", TSO::Embedded { all: false, negate: false, limit: Some(1) }),
+        ("rel-precedes-nowhitespace", TSO::Precedes { all: false, negate: false, allow_whitespace: false }),
+    ];
+    for (l, op) in rels {
+        add("TextRelation", &[l], Constraint::TextRelation { var: "x", operator: op });
+    }
+    // (an empty search text is not in the menu: evaluating it does not terminate, which is not a C09 matter)
+    for (t, tl) in [("hello", ""), ("hello world", "str-with-space"), ("a\"b", "str-with-quote"), ("?x", "str-looks-like-var"), ("a;b", "str-with-semicolon")] {
+        add("Text", &[tl], Constraint::Text(t, TextMode::Exact));
+    }
+    add("Text", &["mode-nocase"], Constraint::Text("Hello", TextMode::CaseInsensitive));
+    add("Regex", &[], Constraint::Regex(regex::Regex::new("h.*o").unwrap()));
+    add("Regex", &["str-with-quote"], Constraint::Regex(regex::Regex::new("a\"b").unwrap()));
+    add("Union", &[], Constraint::Union(vec![Constraint::Id("a1"), Constraint::Id("a2")]));
+    add("Union", &["union-1"], Constraint::Union(vec![Constraint::Id("a1")]));
+    add(
+        "Union",
+        &["union-mixed"],
+        Constraint::Union(vec![
+            Constraint::DataKey { set: "s", key: "k2", qualifier: SQ::Normal },
+            Constraint::Text("hello", TextMode::Exact),
+            Constraint::KeyValue { set: "s", key: "k", operator: DataOperator::EqualsInt(5), qualifier: SQ::Normal },
+        ]),
+    );
+    add(
+        "Union",
+        &["union-nested"],
+        Constraint::Union(vec![Constraint::Id("a1"), Constraint::Union(vec![Constraint::Id("a2"), Constraint::Id("a3")])]),
+    );
+    add("Union", &["union-with-limit"], Constraint::Union(vec![Constraint::Id("a1"), Constraint::Limit { begin: 0, end: 1 }]));
+    for (b, e, l) in [(0isize, 1isize, ""), (-1, 0, "limit-neg-begin"), (-2, -1, "limit-neg-both"), (0, 0, "limit-zero"), (2, 0, "limit-open-end"), (1, 3, "limit-window")] {
+        add("Limit", &[l], Constraint::Limit { begin: b, end: e });
+    }
+    v
+}
+
+/// Programmatically built whole queries: (unique name, labels, query)
+fn prog_queries() -> Vec<(String, Vec<String>, Query<'static>)> {
+    let mut v: Vec<(String, Vec<String>, Query<'static>)> = Vec::new();
+    let types = [
+        (Type::Annotation, "ANNOTATION"),
+        (Type::AnnotationData, "DATA"),
+        (Type::DataKey, "KEY"),
+        (Type::TextSelection, "TEXT"),
+        (Type::TextResource, "RESOURCE"),
+        (Type::AnnotationDataSet, "DATASET"),
+    ];
+    let l = |x: &[&str]| x.iter().map(|s| s.to_string()).collect::<Vec<_>>();
+    for (t, tl) in types {
+        v.push((format!("base-{}-named", tl), l(&["prog-base"]), Query::new(QueryType::Select, Some(t), Some("a"))));
+        v.push((format!("base-{}-anon", tl), l(&["prog-base"]), Query::new(QueryType::Select, Some(t), None)));
+    }
+    let sel = || Query::new(QueryType::Select, Some(Type::Annotation), Some("a"));
+    v.push(("constraint-1".into(), l(&["prog-constraint"]), sel().with_constraint(Constraint::Id("a1"))));
+    v.push((
+        "constraint-2".into(),
+        l(&["prog-constraint"]),
+        sel().with_constraint(Constraint::DataKey { set: "s", key: "k", qualifier: SelectionQualifier::Normal }).with_constraint(Constraint::Limit { begin: 0, end: 1 }),
+    ));
+    let inner = || Query::new(QueryType::Select, Some(Type::TextSelection), Some("b"));
+    v.push(("subquery".into(), l(&["base:prog-subquery"]), sel().with_subquery(inner())));
+    v.push(("subquery-optional".into(), l(&["base:prog-subquery", "prog-optional"]), sel().with_subquery(inner().with_qualifier(QueryQualifier::Optional))));
+    v.push(("top-optional".into(), l(&["prog-optional"]), sel().with_qualifier(QueryQualifier::Optional)));
+    v.push((
+        "subquery-siblings".into(),
+        l(&["base:prog-subquery", "prog-siblings"]),
+        sel().with_subquery(inner()).with_subquery(Query::new(QueryType::Select, Some(Type::AnnotationData), Some("c"))),
+    ));
+    v.push((
+        "subquery-nested".into(),
+        l(&["base:prog-subquery", "prog-nested"]),
+        sel().with_subquery(inner().with_subquery(Query::new(QueryType::Select, Some(Type::Annotation), Some("c")))),
+    ));
+    v.push((
+        "delete".into(),
+        l(&["base:prog-subquery", "prog-delete"]),
+        Query::new(QueryType::Delete, Some(Type::Annotation), Some("a")).with_subquery(sel()),
+    ));
+    v.push((
+        "add".into(),
+        l(&["base:prog-subquery", "prog-add"]),
+        Query::new(QueryType::Add, Some(Type::Annotation), Some("n")).with_subquery(sel()),
+    ));
+    v
+}
+
+// ---- cases, feature attribution, reporting ---------------------------------------------------------------------------
+
+/// label -> (symptom kind, error / difference class) pairs for which that label alone is to blame
+type Singles = BTreeMap<String, BTreeSet<(&'static str, String)>>;
+
+struct CaseResult {
+    labels: Vec<String>,
+    shown: String,
+    case: Value,
+    fails: Vec<FixFail>,
+    stats: FixStats,
+    rejected: bool,
+}
+
+fn is_base(l: &str) -> bool {
+    l.starts_with("base:")
+}
+
+fn blamed(s: &Singles, label: &str, f: &FixFail, exact: bool) -> bool {
+    s.get(label).map(|set| set.iter().any(|(k, m)| *k == f.kind && (!exact || *m == f.mid))).unwrap_or(false)
+}
+
+/// Which labels are to blame for a by-label failure: pass 1 = cases with a single label; pass 2 = cases with exactly one
+/// non-base label whose base labels do not show the same failure on their own.
+fn compute_singles(results: &[CaseResult]) -> Singles {
+    let mut s: Singles = BTreeMap::new();
+    for r in results.iter().filter(|r| r.labels.len() == 1) {
+        for f in r.fails.iter().filter(|f| f.by_labels) {
+            s.entry(r.labels[0].clone()).or_default().insert((f.kind, f.mid.clone()));
+        }
+    }
+    let mut add: Vec<(String, (&'static str, String))> = Vec::new();
+    for r in results.iter().filter(|r| r.labels.len() > 1) {
+        let nonbase: Vec<&String> = r.labels.iter().filter(|l| !is_base(l)).collect();
+        if nonbase.len() != 1 {
+            continue;
+        }
+        for f in r.fails.iter().filter(|f| f.by_labels) {
+            if !r.labels.iter().filter(|l| is_base(l)).any(|l| blamed(&s, l, f, true)) {
+                add.push((nonbase[0].clone(), (f.kind, f.mid.clone())));
+            }
+        }
+    }
+    for (l, k) in add {
+        s.entry(l).or_default().insert(k);
+    }
+    s
+}
+
+fn feature_of(labels: &[String], f: &FixFail, singles: &Singles) -> String {
+    let mut culprits: Vec<&str> = labels.iter().filter(|l| blamed(singles, l, f, true)).map(|s| s.as_str()).collect();
+    if culprits.is_empty() {
+        culprits = labels.iter().filter(|l| blamed(singles, l, f, false)).map(|s| s.as_str()).collect();
+    }
+    if culprits.is_empty() {
+        culprits = labels.iter().map(|s| s.as_str()).collect();
+    }
+    culprits.sort();
+    culprits.dedup();
+    culprits.join("+")
+}
+
+fn report_result(rep: &Reporter, r: &CaseResult, singles: &Singles) {
+    for f in &r.fails {
+        let sig = if f.by_labels {
+            format!("fix|{}|{}|feat={}", f.kind, f.mid, feature_of(&r.labels, f, singles))
+        } else {
+            format!("fix|{}|{}", f.kind, f.mid)
+        };
+        rep.fail(&sig, ord_of(&r.shown), || format!("{} [{}]: {}", r.shown, r.labels.join(","), f.detail), || r.case.clone());
+    }
+}
+
+#[derive(Default, Clone)]
+struct FixStats {
+    cases: u64,
+    rejected: u64,
+    unprintable: u64,
+    checked: u64,
+    calls: u64,
+}
+
+impl FixStats {
+    fn merge(&mut self, o: &FixStats) {
+        self.cases += o.cases;
+        self.rejected += o.rejected;
+        self.unprintable += o.unprintable;
+        self.checked += o.checked;
+        self.calls += o.calls;
+    }
+    fn absorb(&mut self, o: &FixOut) {
+        self.cases += 1;
+        self.calls += o.calls;
+        if o.unprintable {
+            self.unprintable += 1
+        } else {
+            self.checked += 1
+        }
+    }
+}
+
+/// One textual case (no failures if it does not parse: a rejected query is outside the fixpoint quantifier).
+fn run_text_case(c: &TextCase, stores: &[AnnotationStore]) -> CaseResult {
+    let mut fs = FixStats::default();
+    let mut res = CaseResult {
+        labels: c.labels.clone(),
+        shown: c.text.clone(),
+        case: json!({"part": "fix-text", "text": c.text, "labels": c.labels}),
+        fails: Vec::new(),
+        stats: FixStats::default(),
+        rejected: false,
+    };
+    fs.calls += 1;
+    match catch(|| Query::try_from(c.text.as_str())) {
+        Err(_) | Ok(Err(_)) => {
+            // a panic here is reported by the totality part (every textual case is also a totality input)
+            fs.cases += 1;
+            fs.rejected += 1;
+            res.rejected = true;
+        }
+        Ok(Ok(q)) => {
+            let o = fix_check(&q, stores, false);
+            fs.absorb(&o);
+            res.fails = o.fails;
+        }
+    }
+    res.stats = fs;
+    res
+}
+
+fn constraint_query(c: &Constraint<'static>) -> Query<'static> {
+    Query::new(QueryType::Select, Some(Type::Annotation), Some("a")).with_constraint(c.clone())
+}
+
+/// Constraint-level fixpoint: `Constraint::to_string` embedded in a minimal query must parse back to the same constraint.
+fn check_constraint(c: &Constraint, stores: &[AnnotationStore], fs: &mut FixStats) -> Vec<FixFail> {
+    fs.cases += 1;
+    fs.calls += 1;
+    let mut fails = Vec::new();
+    let cstr = match catch(|| c.to_string()) {
+        Err(m) => {
+            fails.push(FixFail { kind: "print-panic", mid: panic_class(&m), by_labels: true, detail: format!("Constraint::to_string() panicked: {}", m) });
+            return fails;
+        }
+        Ok(Err(_)) => {
+            fs.unprintable += 1;
+            return fails;
+        }
+        Ok(Ok(s)) => s,
+    };
+    fs.checked += 1;
+    let text = format!("SELECT ANNOTATION ?a WHERE {}", cstr);
+    fs.calls += 1;
+    let p = match catch(|| Query::try_from(text.as_str())) {
+        Err(m) => {
+            fails.push(FixFail { kind: "reparse-panic", mid: panic_class(&m), by_labels: true, detail: format!("constraint printed as {:?}; parsing {:?} panicked: {}", cstr, text, m) });
+            return fails;
+        }
+        Ok(Err(e)) => {
+            fails.push(FixFail { kind: "reparse-err", mid: err_class(&e), by_labels: true, detail: format!("constraint printed as {:?}; parsing {:?} fails: {}", cstr, text, e) });
+            return fails;
+        }
+        Ok(Ok(p)) => p,
+    };
+    let orig = cs(c);
+    let back: Vec<CS> = p.constraints().map(cs).collect();
+    let diff = if back.len() != 1 { Some(format!("constraints-len:{}", len_cmp(1, back.len()))) } else { cs_diff(&orig, &back[0]) };
+    let mut notes: Vec<String> = Vec::new();
+    fs.calls += 1;
+    let again: Result<Vec<Result<String, StamError>>, String> = catch(|| p.constraints().map(|x| x.to_string()).collect());
+    match again {
+        Err(m) => fails.push(FixFail { kind: "print-panic", mid: panic_class(&m), by_labels: true, detail: format!("second to_string() panicked: {}", m) }),
+        Ok(v) => {
+            let joined: Vec<String> = v.into_iter().map(|r| r.unwrap_or_else(|e| format!("<Err {}>", e))).collect();
+            if joined.len() != 1 || joined[0] != cstr {
+                if diff.is_none() {
+                    fails.push(FixFail {
+                        kind: "print-differs",
+                        mid: "structure-equal".into(),
+                        by_labels: true,
+                        detail: format!("first print {:?}, print of the reparsed constraint(s) {:?}", cstr, joined),
+                    });
+                } else {
+                    notes.push(format!("second print differs: {:?}", joined));
+                }
+            }
+        }
+    }
+    let q = Query::new(QueryType::Select, Some(Type::Annotation), Some("a")).with_constraint(c.clone());
+    let oq = outcomes(&q, stores, &mut fs.calls);
+    let op = outcomes(&p, stores, &mut fs.calls);
+    for i in 0..oq.len() {
+        if oq[i] != op[i] {
+            if diff.is_none() {
+                fails.push(FixFail {
+                    kind: "meaning-differs",
+                    mid: "structure-equal".into(),
+                    by_labels: true,
+                    detail: format!("constraint printed as {:?}; on store {} the original gives {} but the reparsed query gives {}", cstr, i, oq[i], op[i]),
+                });
+            } else {
+                notes.push(format!("meaning differs too: on store {} the original gives {} but the reparsed query gives {}", i, oq[i], op[i]));
+            }
+            break;
+        }
+    }
+    if let Some(dc) = &diff {
+        let mut detail = format!("constraint printed as {:?}; reparsed differs at {}: original {:?} reparsed {:?}", cstr, dc, orig, back);
+        if !notes.is_empty() {
+            detail = format!("{}; {}", detail, notes.join("; "));
+        }
+        fails.push(FixFail { kind: "structure-differs", mid: dc.clone(), by_labels: false, detail });
+    }
+    fails
+}
+
+fn run_prog_constraint(labels: &[String], c: &Constraint<'static>, stores: &[AnnotationStore]) -> CaseResult {
+    let mut fs = FixStats::default();
+    let fails = check_constraint(c, stores, &mut fs);
+    CaseResult {
+        labels: labels.to_vec(),
+        shown: format!("{:?}", c),
+        case: json!({"part": "fix-prog-constraint", "name": format!("{:?}", c)}),
+        fails,
+        stats: fs,
+        rejected: false,
+    }
+}
+
+/// The same constraint inside a programmatically built query, printed through `Query::to_string`.
+fn run_prog_query_constraint(labels: &[String], c: &Constraint<'static>, stores: &[AnnotationStore]) -> CaseResult {
+    let q = constraint_query(c);
+    let o = fix_check(&q, stores, false);
+    let mut fs = FixStats::default();
+    fs.absorb(&o);
+    let mut l = vec!["base:query-with_constraint".to_string()];
+    l.extend(labels.iter().cloned());
+    CaseResult {
+        labels: l,
+        shown: format!("Query::new(Select, Annotation, a).with_constraint({:?})", c),
+        case: json!({"part": "fix-prog-query-constraint", "name": format!("{:?}", c)}),
+        fails: o.fails,
+        stats: fs,
+        rejected: false,
+    }
+}
+
+fn run_prog_query(name: &str, labels: &[String], q: &Query<'static>, stores: &[AnnotationStore]) -> CaseResult {
+    let o = fix_check(q, stores, false);
+    let mut fs = FixStats::default();
+    fs.absorb(&o);
+    CaseResult {
+        labels: labels.to_vec(),
+        shown: format!("programmatic query {}", name),
+        case: json!({"part": "fix-prog-query", "name": name}),
+        fails: o.fails,
+        stats: fs,
+        rejected: false,
+    }
+}
+
+/// Constraints over handle collections (need a store): (label, constraint)
+fn handle_constraints<'s>(store: &'s AnnotationStore) -> Vec<(String, Constraint<'s>)> {
+    use std::borrow::Cow;
+    let mut v = Vec::new();
+    let ann: Vec<AnnotationHandle> = ["a1", "a2"].iter().filter_map(|id| store.annotation(*id).map(|a| a.handle())).collect();
+    let res: Vec<TextResourceHandle> = store.resources().map(|r| r.handle()).collect();
+    let mut data = Vec::new();
+    let mut keys = Vec::new();
+    for s in store.datasets() {
+        for dd in s.data().take(2) {
+            data.push((s.handle(), dd.handle()));
+        }
+        for k in s.keys().take(2) {
+            keys.push((s.handle(), k.handle()));
+        }
+    }
+    let tsel: Vec<(TextResourceHandle, TextSelectionHandle)> = store
+        .annotations()
+        .flat_map(|a| a.textselections().filter_map(|t| t.handle().map(|h| (t.resource().handle(), h))).collect::<Vec<_>>())
+        .take(2)
+        .collect();
+    for (dep, dl) in [(AnnotationDepth::Zero, "depth-zero"), (AnnotationDepth::One, "depth-one"), (AnnotationDepth::Max, "depth-max")] {
+        v.push((
+            format!("handles-Annotations[{}]", dl),
+            Constraint::Annotations(Handles::new(Cow::Owned(ann.clone()), true, store), SelectionQualifier::Normal, dep),
+        ));
+    }
+    v.push(("handles-Resources".into(), Constraint::Resources(Handles::new(Cow::Owned(res), true, store), SelectionQualifier::Normal)));
+    v.push(("handles-Data".into(), Constraint::Data(Handles::new(Cow::Owned(data), true, store), SelectionQualifier::Normal)));
+    v.push(("handles-Keys".into(), Constraint::Keys(Handles::new(Cow::Owned(keys), true, store), SelectionQualifier::Normal)));
+    v.push(("handles-TextSelections".into(), Constraint::TextSelections(Handles::new(Cow::Owned(tsel), false, store), SelectionQualifier::Normal)));
+    v
+}
+
+/// A handle collection is printed as a union of id-based constraints: the printed text must parse, and the parsed
+/// query must itself be a print/parse fixpoint. (Structure and meaning against the collection are not compared.)
+fn run_handles(label: &str, si: usize, c: &Constraint, stores: &[AnnotationStore]) -> CaseResult {
+    let mut fs = FixStats::default();
+    fs.cases += 1;
+    fs.calls += 1;
+    let mut fails = Vec::new();
+    match catch(|| c.to_string()) {
+        Err(m) => fails.push(FixFail { kind: "print-panic", mid: panic_class(&m), by_labels: true, detail: format!("Constraint::to_string() panicked: {}", m) }),
+        Ok(Err(_)) => fs.unprintable += 1,
+        Ok(Ok(cstr)) => {
+            fs.checked += 1;
+            let text = format!("SELECT ANNOTATION ?a WHERE {}", cstr);
+            fs.calls += 1;
+            match catch(|| Query::try_from(text.as_str())) {
+                Err(m) => fails.push(FixFail { kind: "reparse-panic", mid: panic_class(&m), by_labels: true, detail: format!("printed as {:?}; parsing {:?} panicked: {}", cstr, text, m) }),
+                Ok(Err(e)) => fails.push(FixFail { kind: "reparse-err", mid: err_class(&e), by_labels: true, detail: format!("printed as {:?}; parsing {:?} fails: {}", cstr, text, e) }),
+                Ok(Ok(p)) => {
+                    let o = fix_check(&p, &stores[si..si + 1], false);
+                    fs.calls += o.calls;
+                    fails.extend(o.fails);
+                }
+            }
+        }
+    }
+    CaseResult {
+        labels: vec![label.to_string()],
+        shown: format!("{} on store {}", label, si),
+        case: json!({"part": "fix-handles", "name": label, "store": si}),
+        fails,
+        stats: fs,
+        rejected: false,
+    }
+}
+
+struct Part2 {
+    stats: FixStats,
+    samples: Vec<Value>,
+    rejected_samples: Vec<String>,
+    ntext: usize,
+    nprogc: usize,
+    nprogq: usize,
+    nhandles: usize,
+}
+
+fn text_cases() -> Vec<TextCase> {
+    let mut v: Vec<TextCase> = seeds().iter().map(|s| TextCase { labels: vec!["seed".to_string()], text: s.to_string() }).collect();
+    v.extend(grammar_cases());
+    v
+}
+
+/// Every fixpoint case, evaluated. (Also used by replay to recompute the feature attribution.)
+fn all_results(stores: &[AnnotationStore]) -> (Vec<CaseResult>, [usize; 4]) {
+    let texts = text_cases();
+    let progc = prog_constraints();
+    let progq = prog_queries();
+    let mut results: Vec<CaseResult> = texts.par_iter().map(|c| run_text_case(c, stores)).collect();
+    results.extend(progc.par_iter().map(|(l, c)| run_prog_constraint(l, c, stores)).collect::<Vec<_>>());
+    results.extend(progc.par_iter().map(|(l, c)| run_prog_query_constraint(l, c, stores)).collect::<Vec<_>>());
+    for (name, labels, q) in &progq {
+        results.push(run_prog_query(name, labels, q, stores));
+    }
+    let mut nhandles = 0;
+    for (si, store) in stores.iter().enumerate() {
+        for (label, c) in handle_constraints(store) {
+            nhandles += 1;
+            results.push(run_handles(&label, si, &c, stores));
+        }
+    }
+    (results, [texts.len(), progc.len(), progq.len(), nhandles])
+}
+
+fn run_part2(rep: &Reporter, st: &Stats) -> Part2 {
+    let stores: Vec<AnnotationStore> = (0..NSTORES).map(build_store).collect();
+    let stores = &stores[..];
+    // every textual case is also a parser input for the totality part
+    let texts = text_cases();
+    texts.par_iter().for_each(|c| {
+        let mut l = Local::default();
+        check_total(rep, &c.text, true, "seed / grammar query", &mut l);
+        l.flush(st);
+    });
+    let (results, counts) = all_results(stores);
+    let singles = compute_singles(&results);
+    let mut total = FixStats::default();
+    let mut rejected = Vec::new();
+    for r in &results {
+        report_result(rep, r, &singles);
+        total.merge(&r.stats);
+        if r.rejected && rejected.len() < 400 {
+            rejected.push(r.shown.clone());
+        }
+    }
+    let mut samples = Vec::new();
+    for i in [3usize, texts.len() / 2, texts.len() - 3] {
+        let c = &texts[i];
+        let printed = Query::try_from(c.text.as_str()).ok().and_then(|q| q.to_string().ok());
+        samples.push(json!({"part": "fixpoint", "query": c.text, "labels": c.labels, "printed": printed}));
+    }
+    let progc = prog_constraints();
+    samples.push(json!({"part": "fixpoint", "programmatic_constraint": format!("{:?}", progc[10].1), "printed": progc[10].1.to_string().ok()}));
+    Part2 { stats: total, samples, rejected_samples: rejected, ntext: counts[0], nprogc: counts[1], nprogq: counts[2], nhandles: counts[3] }
+}
+
+// ---- run / replay ----------------------------------------------------------------------------------------------------
+
+pub fn run(rep: &Reporter) -> Coverage {
+    let st = Stats::default();
+    let plan = totality_plan(rep.tier);
+    // part 2 first (cheap, never capped)
+    let p2 = run_part2(rep, &st);
+    let t_part2 = rep.elapsed();
+    // part 1
+    let nedits = seed_edits(rep, &st, plan.double_tokens);
+    let mut space_runs = Vec::new();
+    let mut capped = Vec::new();
+    for &(ci, joiner, maxlen) in &plan.runs {
+        let mut completed = 0usize;
+        let mut was_capped = false;
+        for len in 0..=maxlen {
+            if enumerate_sequences(rep, CONTEXTS[ci], joiner, len, &st, plan.deadline_s) {
+                completed = len;
+            } else {
+                was_capped = true;
+                capped.push(json!({"context": CONTEXTS[ci].0, "joiner": format!("{:?}", joiner), "length_cut": len}));
+                break;
+            }
+        }
+        space_runs.push(json!({"context": CONTEXTS[ci].0, "prefix": CONTEXTS[ci].1, "joiner": format!("{:?}", joiner),
+            "max_length_planned": maxlen, "max_length_completed": completed, "capped": was_capped}));
+    }
+    let mut cov = Coverage::default();
+    let tot_cases = st.cases.load(Ordering::Relaxed);
+    cov.states = tot_cases + p2.stats.cases;
+    cov.transitions = st.calls.load(Ordering::Relaxed) + p2.stats.calls;
+    cov.evaluations = cov.transitions;
+    cov.traces_validated = cov.states;
+    cov.distinct_nontrivial = st.nontrivial.load(Ordering::Relaxed) + p2.stats.checked;
+    cov.rule = "totality: every sequence of 0..=L alphabet tokens (48 tokens) appended to each context prefix under each joiner (bounds per run in extra.space), plus every char-boundary prefix, single-character deletion/duplication and single-token deletion/substitution/insertion/append (thorough: also every substitution of two adjacent tokens) of the seed queries; fixpoint: every seed and grammar query that parses, every programmatic constraint/query of the menu whose to_string() is Ok. states = distinct input strings / queries, transitions = calls of Query::parse, Query::try_from, Query::to_string, Constraint::to_string, AnnotationStore::query/query_mut; non-trivial = parser inputs that start with SELECT/ADD/DELETE/@ (get past the dispatcher) + queries that were printed and reparsed".into();
+    cov.samples = vec![
+        json!({"part": "totality", "input": format!("{}{} {} {}", CONTEXTS[2].1, ALPHABET[30], ALPHABET[38], ALPHABET[24])}),
+        json!({"part": "totality", "input": &seeds()[11][..40]}),
+        json!({"part": "totality", "input": format!("{}{}\n{}", CONTEXTS[5].1, ALPHABET[0], ALPHABET[43])}),
+    ];
+    cov.samples.extend(p2.samples);
+    cov.exhaustive = capped.is_empty();
+    cov.extra.insert(
+        "space".into(),
+        json!({
+            "alphabet": ALPHABET,
+            "contexts": CONTEXTS.iter().map(|c| json!({"name": c.0, "prefix": c.1})).collect::<Vec<_>>(),
+            "sequence_runs": space_runs,
+            "seed_queries": seeds().len(),
+            "seed_edit_cases": nedits,
+            "fixpoint": {"textual_cases": p2.ntext, "programmatic_constraints": p2.nprogc, "programmatic_queries": p2.nprogq,
+                "handle_collection_constraints": p2.nhandles, "meaning_stores": NSTORES,
+                "grammar_queries_rejected_by_parser": p2.stats.rejected, "unprintable (to_string Err, skipped)": p2.stats.unprintable,
+                "printed_and_reparsed": p2.stats.checked},
+        }),
+    );
+    cov.extra.insert("caps_hit".into(), Value::Array(capped));
+    cov.extra.insert(
+        "totality_outcomes".into(),
+        json!({"inputs": tot_cases, "parsed": st.ok.load(Ordering::Relaxed), "syntax_error": st.err.load(Ordering::Relaxed), "panicked": st.panics.load(Ordering::Relaxed)}),
+    );
+    cov.extra.insert("rejected_grammar_query_samples".into(), json!(p2.rejected_samples.iter().take(12).collect::<Vec<_>>()));
+    cov.extra.insert("part2_wall_s".into(), json!((t_part2 * 100.0).round() / 100.0));
+    cov.assumptions = vec![
+        "a grammar query that the parser rejects with a syntax error is not a C09 violation (it is outside the fixpoint quantifier; C08 covers rejected valid syntax); it is counted in grammar_queries_rejected_by_parser".into(),
+        "to_string() returning Err (operators without syntax: And, Or, HasElement, Not of a comparison) is 'not printable' and skipped".into(),
+        "constraints over handle collections (Annotations, Data, Keys, Resources, TextSelections) are printed as unions by design: their structure is not compared, only reparse, print stability and meaning".into(),
+        "meaning is compared as rendered result rows (and, for ADD/DELETE, the store afterwards) on three small stores; evaluation errors are swallowed by QueryIter and show up as empty results on both sides".into(),
+        "hangs are not detected (every parser loop was read to consume input or fail)".into(),
+    ];
+    if std::env::var("C09_DEBUG_COV").is_ok() {
+        eprintln!("states={} transitions={} nontrivial={} exhaustive={} extra={}", cov.states, cov.transitions, cov.distinct_nontrivial, cov.exhaustive, serde_json::to_string_pretty(&cov.extra).unwrap());
+        eprintln!("samples={}", serde_json::to_string_pretty(&cov.samples).unwrap());
+    }
+    cov
+}
+
+/// Re-execute one recorded case.
+pub fn replay(rep: &Reporter, case: &Value) {
+    let part = case["part"].as_str().unwrap_or("");
+    let stores: Vec<AnnotationStore> = (0..NSTORES).map(build_store).collect();
+    let stores = &stores[..];
+    println!("replay C09: {}", case);
+    if part == "totality" {
+        let s = case["input"].as_str().unwrap_or("");
+        let mut l = Local::default();
+        check_total(rep, s, true, "replay", &mut l);
+        match parse_outcome(s) {
+            Ok(true) => println!("  Query::parse({:?}) = Ok", s),
+            Ok(false) => println!("  Query::parse({:?}) = Err({})", s, Query::parse(s).err().map(|e| e.to_string()).unwrap_or_default()),
+            Err(m) => println!("  Query::parse({:?}) PANICKED: {}", s, m),
+        }
+        return;
+    }
+    // the feature attribution needs the outcome of the single-feature cases: recompute them (cheap)
+    let (results, _) = all_results(stores);
+    let singles = compute_singles(&results);
+    let name = case["name"].as_str().unwrap_or("");
+    let progc = prog_constraints();
+    let found_c = progc.iter().find(|(_, c)| format!("{:?}", c) == name);
+    let result: Option<CaseResult> = match part {
+        "fix-text" => {
+            let c = TextCase {
+                labels: case["labels"].as_array().map(|a| a.iter().filter_map(|x| x.as_str().map(|s| s.to_string())).collect()).unwrap_or_default(),
+                text: case["text"].as_str().unwrap_or("").to_string(),
+            };
+            Some(run_text_case(&c, stores))
+        }
+        "fix-prog-constraint" => found_c.map(|(l, c)| run_prog_constraint(l, c, stores)),
+        "fix-prog-query-constraint" => found_c.map(|(l, c)| run_prog_query_constraint(l, c, stores)),
+        "fix-prog-query" => prog_queries().iter().find(|x| x.0 == name).map(|(n, l, q)| run_prog_query(n, l, q, stores)),
+        "fix-handles" => {
+            let si = (case["store"].as_u64().unwrap_or(0) as usize).min(NSTORES - 1);
+            handle_constraints(&stores[si]).into_iter().find(|(l, _)| l == name).map(|(l, c)| run_handles(&l, si, &c, stores))
+        }
+        _ => None,
+    };
+    match result {
+        None => println!("  unknown case {:?} / {:?}", part, name),
+        Some(r) => {
+            if r.rejected {
+                println!("  the query does not parse (outside the fixpoint quantifier)");
+            } else if r.fails.is_empty() {
+                println!("  fixpoint holds");
+            }
+            for f in &r.fails {
+                println!("  {} [{}]: {}", f.kind, f.mid, f.detail);
+            }
+            report_result(rep, &r, &singles);
+        }
+    }
+}
